@@ -1047,11 +1047,12 @@ class System(BaseModel, Serializable):
                 comp_output = comp.predict(comp_input, use_model=use_model.get(scc[0]), model_dir=output_dir,
                                            index_set=index_set.get(scc[0]), incremental=incremental.get(scc[0]),
                                            misc_coeff=misc_coeff.get(scc[0]), executor=executor, **kwds)
+                curr_idx = samples.curr_idx  # the samples this component was evaluated for (fixed for all its outputs)
                 for var, arr in comp_output.items():
                     output_shape = arr.shape[1:]
                     if y.get(var) is None:
                         y.setdefault(var, np.full((N, *output_shape), np.nan))
-                    y[var][samples.curr_idx, ...] = arr
+                    y[var][curr_idx, ...] = arr
                     samples.valid_idx = np.logical_and(samples.valid_idx, ~np.any(np.isnan(y[var]),
                                                                                   axis=tuple(range(1, y[var].ndim))))
                     is_computed[str(var).split(LATENT_STR_ID)[0]] = True
